@@ -128,8 +128,7 @@ def _run_classify(inst, res):
         res['status'] = INCONCLUSIVE
         res['notes'].append(ex.status)
         return
-    res['obligations'] += 1
-    res['discharged'] += int(ex.exhaustive())
+    require_exhaustive(res, ex)
     want = _expected(perm, has_dir, has_ref, ty)
     for p in ex.paths:
         res['obligations'] += 1
